@@ -50,7 +50,7 @@ func (f *Formatter) Format(content string) (string, error) {
 	body = strings.TrimLeft(body, "\n")
 
 	// Check if this looks like a full document (starts with <!DOCTYPE or <html)
-	trimmedBody := strings.TrimSpace(body)
+	trimmedBody := trimHTMLSpace(body)
 	// (a closing </html> anywhere is what the template engine itself goes by)
 	isFullDocument := hasDoctypePrefix(trimmedBody) || startsWithHTMLTag(trimmedBody) || strings.Contains(trimmedBody, "</html>")
 
@@ -80,7 +80,7 @@ func hasDoctypePrefix(s string) bool {
 
 // formatFullDocument formats a complete HTML document.
 func (f *Formatter) formatFullDocument(frontmatter, body string) (string, error) {
-	trimmedBody := strings.TrimSpace(body)
+	trimmedBody := trimHTMLSpace(body)
 
 	// Extract DOCTYPE if present
 	var doctype string
@@ -91,7 +91,7 @@ func (f *Formatter) formatFullDocument(frontmatter, body string) (string, error)
 		endIdx := strings.Index(trimmedBody, ">")
 		if endIdx != -1 {
 			doctype = trimmedBody[:endIdx+1]
-			htmlContent = strings.TrimSpace(trimmedBody[endIdx+1:])
+			htmlContent = trimHTMLSpace(trimmedBody[endIdx+1:])
 		}
 	} else {
 		htmlContent = trimmedBody
@@ -250,7 +250,8 @@ func (f *Formatter) formatNode(n *html.Node, buf *strings.Builder, depth int) {
 
 	case html.ElementNode:
 		// Style/script blocks - preserve content as-is
-		if isRawTextElement(n.Data) {
+		// (only HTML's own elements: inside <svg> or <math> a <style> or <script> has ordinary content)
+		if n.Namespace == "" && isRawTextElement(n.Data) {
 			f.formatRawTextElement(n, buf, indent)
 			return
 		}
@@ -325,6 +326,30 @@ func (f *Formatter) formatNode(n *html.Node, buf *strings.Builder, depth int) {
 		// a doctype that is not the very first thing of the document (a comment precedes it)
 		buf.WriteString("<!DOCTYPE ")
 		buf.WriteString(n.Data)
+		var public, system string
+		for _, a := range n.Attr {
+			switch a.Key {
+			case "public":
+				public = a.Val
+			case "system":
+				system = a.Val
+			}
+		}
+		quoted := func(s string) string {
+			if strings.Contains(s, `"`) {
+				return "'" + s + "'"
+			}
+			return `"` + s + `"`
+		}
+		switch {
+		case public != "":
+			buf.WriteString(" PUBLIC " + quoted(public))
+			if system != "" {
+				buf.WriteString(" " + quoted(system))
+			}
+		case system != "":
+			buf.WriteString(" SYSTEM " + quoted(system))
+		}
 		buf.WriteString(">\n")
 	}
 }
@@ -374,7 +399,7 @@ func (f *Formatter) renderPreContent(n *html.Node, buf *strings.Builder) {
 	for c := n.FirstChild; c != nil; c = c.NextSibling {
 		switch c.Type {
 		case html.TextNode:
-			if isRawTextElement(n.Data) {
+			if n.Namespace == "" && isRawTextElement(n.Data) {
 				// raw text: entities are not decoded by the parser, so they must not be encoded
 				buf.WriteString(c.Data)
 				continue
@@ -499,7 +524,7 @@ func (f *Formatter) renderInlineChildren(n *html.Node) string {
 // escapeText escapes HTML-significant characters (&, <, >) in text content.
 // Content inside {{ }} template expressions is preserved as-is to avoid
 // breaking template syntax like {{ a < b }}.
-var charRefInMustache = regexp.MustCompile(`&(#?[0-9A-Za-z]+;)`)
+var charRefInMustache = regexp.MustCompile(`&(#?[0-9A-Za-z]+;?)`)
 
 func escapeText(s string) string {
 	var b strings.Builder
